@@ -30,7 +30,7 @@ impl Universe {
             let hi = if i + 1 < cuts.len() { cuts[i + 1] - 1 } else { MAX };
             segs.push((lo, hi));
         }
-        assert!(segs.len() <= 64, "universe too large");
+        assert!(segs.len() <= 128, "universe too large");
         Universe { segs }
     }
 
@@ -68,8 +68,8 @@ impl Universe {
         v
     }
 
-    pub fn mask(&self, a: u32, b: u32) -> u64 {
-        let mut m = 0u64;
+    pub fn mask(&self, a: u32, b: u32) -> u128 {
+        let mut m = 0u128;
         for (i, &(x, y)) in self.segs.iter().enumerate() {
             if a <= x && y <= b {
                 m |= 1 << i;
@@ -80,15 +80,15 @@ impl Universe {
         m
     }
 
-    pub fn full_mask(&self) -> u64 {
-        if self.len() == 64 {
-            u64::MAX
+    pub fn full_mask(&self) -> u128 {
+        if self.len() == 128 {
+            u128::MAX
         } else {
-            (1u64 << self.len()) - 1
+            (1u128 << self.len()) - 1
         }
     }
 
-    pub fn card(&self, m: u64) -> u64 {
+    pub fn card(&self, m: u128) -> u64 {
         let mut c = 0u64;
         for (i, &(x, y)) in self.segs.iter().enumerate() {
             if m & (1 << i) != 0 {
@@ -108,14 +108,14 @@ impl Universe {
     }
 
     /// is the mask a non-empty run of consecutive segments?
-    pub fn is_interval(&self, m: u64) -> bool {
+    pub fn is_interval(&self, m: u128) -> bool {
         if m == 0 {
             return false;
         }
         let lo = m.trailing_zeros();
-        let hi = 63 - m.leading_zeros();
+        let hi = 127 - m.leading_zeros();
         let width = hi - lo + 1;
-        let run = if width == 64 { u64::MAX } else { ((1u64 << width) - 1) << lo };
+        let run = if width == 128 { u128::MAX } else { ((1u128 << width) - 1) << lo };
         m == run
     }
 
@@ -135,18 +135,18 @@ impl Universe {
     }
 
     /// least character of the mask
-    pub fn min_char(&self, m: u64) -> Option<u32> {
+    pub fn min_char(&self, m: u128) -> Option<u32> {
         if m == 0 {
             None
         } else {
             Some(self.segs[m.trailing_zeros() as usize].0)
         }
     }
-    pub fn max_char(&self, m: u64) -> Option<u32> {
+    pub fn max_char(&self, m: u128) -> Option<u32> {
         if m == 0 {
             None
         } else {
-            Some(self.segs[63 - m.leading_zeros() as usize].1)
+            Some(self.segs[127 - m.leading_zeros() as usize].1)
         }
     }
 }
